@@ -115,7 +115,9 @@ func (c caseSpec) errHead(i int) string {
 	case bPanicError:
 		return fmt.Sprintf("panic: boom-err %d\n", i)
 	case bNilReceiver:
-		return "panic: runtime error: "
+		// the text after "panic: " differs between a nil *P (runtime error: invalid memory
+		// address ...) and a nil *V (value method ... called using nil *V pointer)
+		return "panic: "
 	}
 	return ""
 }
